@@ -3,25 +3,34 @@ THEOREMS_TIED = ["Rustic.Props.C13.treeStreamerOnce_any_order", "Rustic.Props.C1
                  "Rustic.Props.C13.every_written_pack_indexed", "Rustic.Props.C13.stored_set_schedule_independent",
                  "Rustic.Props.C13.treeId_independent_of_index", "Rustic.Props.C13.pipeline_progress",
                  "Rustic.Props.C13.network_progress", "Rustic.Props.C13.archiver_network_progress",
-                 "Rustic.Props.C13.snapshot_is_function_of_source"]
+                 "Rustic.Props.C13.snapshot_is_function_of_source",
+                 "Rustic.Props.C13.treeStreamerOnce_threads_any_schedule", "Rustic.Props.C13.treeStreamerOnce_threads_progress", "Rustic.Props.C13.treeStreamerOnce_threads_terminates",
+                 "Rustic.Props.C13.addRaw_lock_terminates", "Rustic.Props.C13.treeStreamerOnce_stuck_only_on_full_queue",
+                 "Rustic.Props.C13.bounded_queue_can_deadlock", "Rustic.Props.C13.addRaw_lock_progress",
+                 "Rustic.Props.C13.progress_needs_no_lock_across_blocking_send", "Rustic.Props.C13.lock_held_across_send_can_deadlock"]
 
 TRUSTED = [
-    "hand-written nondeterministic models lean/Rustic/Model/Streamer.lean (TreeStreamerOnce, channel line) and Model/Archive.lean part 2 (packer / file writer / indexer events)",
-    "correspondence harness harness/src/c13.rs (real TreeStreamerOnce through hook verif::tree::stream_once; real backup / prune / check on a MemBackend wrapped with seeded sleeps at every call)",
+    "hand-written nondeterministic models lean/Rustic/Model/Streamer.lean (TreeStreamerOnce, channel line), Model/StreamerQueue.lean (TreeStreamerOnce's consumer / loader threads and their two channels), Model/LockNet.lean (concurrent Packer::add_raw: indexer RwLock, raw_packer lock, file-writer queue) and Model/Archive.lean part 2 (packer / file writer / indexer events)",
+    "correspondence harness harness/src/c13.rs (real TreeStreamerOnce through hook verif::tree::stream_once_until_error; real backup / prune / check on a MemBackend wrapped with seeded sleeps at every call and optional 20-75 ms sleeps at pack writes; every case runs in a child process that is killed when its time budget is over)",
     "crossbeam channels, pariter read-ahead / ordered parallel_map and rayon behave as documented (FIFO, ordered results); real thread interleavings are sampled by seeded delays, not enumerated",
 ]
 ASSUMPTIONS = [
     "PARTIAL: the theorems quantify over all schedules of the MODELS; for the real threads the harness samples schedules (seeded latencies at backend calls, pack sizes from one blob per pack to the default); rayon pool sizes 1..16 are varied (installed pool 2..16 with the caller inside; child process with a global pool of 1..16 and as many CPUs); the pariter stages follow only the CPU count, TreeStreamerOnce has 4 fixed loaders",
     "the progress theorems are about a line (Packer::new / Actor::new) and a DAG network (Archiver::archive: workers fanning out to the data packer and the ordered output queue, main thread feeding the tree packer) of bounded buffers with consuming sinks, not about crossbeam/pariter themselves",
     "tree loads that fail end the stream with an error (outside the streamer model); the `chk` op covers that path on the real code",
+    "the thread-level models (StreamerQueue, LockNet) are tied to the code by reading it (which send / lock acquisition blocks, what is held meanwhile) and by the termination oracle on the shapes their counter-models name (> 1100 outstanding tree requests; >= 45 one-blob packs repacked concurrently with fast_repack under pack-write latency) - not by a step-by-step correspondence; std::sync::RwLock is modelled as writer-preferring",
+    "termination is observed as `answer within the watchdog` (20 s + size allowance per command sequence, again for the oracles); after 3 timeouts in one run the remaining cases are reported `not-run` instead of executed",
 ]
 RULE = ("ops from harness/src/c13.rs, one splitmix64 PRNG (VERIF_SEED): `stream` = random DAG forests of 1-14 trees (0-3 sub-trees each, shared), 0-3 roots (duplicates), read latencies 0-3 ms by seed; "
         "`run` = a random source tree backed up 3 (thorough 5) times on fresh repositories: no delay/default packs, then seeded delays (<=1.5 ms per backend call) x data/tree pack sizes from {1 B, 200 B, 5 kB, 4 MB}; "
         "`hist` = backup A, parent-based backup B, forget A, prune (instant delete, repack) under the same variations; `chk` = check --read-data with a missing tree and 250 ms pack reads. "
+        "Wide shapes (quick 2+2, thorough 12+6): streams of one directory with 1100-1600 distinct sub-directories / that many distinct roots / shared wide sub-directories (range syntax `1=2-1301;2-1301=`), and `run`/`hist` over a source directory with 1100-1400 distinct sub-directories (real check / prune_plan walk it). "
+        "`snaps` (quick 1, thorough 4) = 1100-1500 snapshots with pairwise different root trees (stored through hooks): real check + prune_plan must return, check clean. "
+        "Repack cases (quick 2, thorough 12; also 1 in 6 random run tokens): 5th run-token field `r<ms>` = every pack write sleeps ms..2.5 ms milliseconds and the prune repacks EVERY pack with fast_repack (Packer::add_raw from the rayon workers); sources with 45-80 shared chunks, one blob per pack, pools of >= 2 workers. "
         "Every run token / stream seed carries a rayon pool field (0 = default, n = ThreadPool::install of n workers, g<n> = child process with RAYON_NUM_THREADS=n pinned to n CPUs). Non-trivial = a stream that yields >= 2 trees or any run/hist/chk op; distinct by hash of (op, observation).")
 EXPLANATION = ("Theorems (all schedules of the models): TreeStreamerOnce yields exactly the reachable trees once each, ends iff nothing is outstanding (no deadlock, no early end), terminates within |reachable| steps; "
                "every written pack is indexed at finalize; stored key set independent of flush points and delays; root tree id independent of the index contents; the channel line — and the archiver's whole channel network (any DAG of bounded buffers) — always has an enabled stage and a "
-               "decreasing measure. Correspondence/oracles on the real code: yielded tree set = model's under seeded read latencies; repeated runs give identical tree id and referenced blob set, terminate "
+               "decreasing measure. Thread level: with the unbounded request queue the consumer / loader threads of TreeStreamerOnce always have an enabled step; a stuck state is always a consumer facing a full bounded queue; EVERY bounded queue deadlocks on a directory (or root list) wider than queue + loaders + result queue (counter-model). Concurrent Packer::add_raw (fast repack): progress for every schedule of the code as it is; in general progress iff no indexer guard is held while blocked; keeping the read guard across the blocking send deadlocks (counter-model). Correspondence/oracles on the real code: yielded tree set = model's under seeded read latencies; repeated runs give identical tree id and referenced blob set, terminate "
                "(watchdog), leave storage = index, pass check --read-data and read back as the source.")
 
 
@@ -44,6 +53,9 @@ def _install1(t):
 
 def finding_key(op, impl, model):
     t = op.split(" ")
+    if impl.startswith("not-run"):
+        # the harness stops running watchdog-guarded cases after 3 timeouts in one run (each is reported on its own)
+        return "c13.not-run"
     k = "c13." + (t[1] if len(t) > 1 else "?")
     if _install1(t):
         k += ".install1"
